@@ -190,11 +190,13 @@ Section Report.
 
   Lemma hit_reports s s' term' idx' d' i p entry :
     h_search (hist_of s) term' idx' d' = Some (i, p, entry) -> shows s s' entry p ->
-    grow (e_line s') = true /\ e_hist s' = e_hist s /\ report_ok s' term' i true.
+    grow (e_line s') = true /\ e_hist s' = e_hist s /\ report_ok s' term' i true
+    /\ (e_line s' = e_line s \/ In (buf (e_line s')) (e_hist s)).
   Proof.
     intros Eh [Hb [Hp [Hh [_ [_ [_ [_ Hg]]]]]]]. split; [exact Hg|]. split; [exact Hh|].
-    intros _ _. unfold hist_of in Eh. destruct (hit_facts _ _ _ _ _ _ _ Eh) as [_ [_ [Hn [Hc _]]]].
-    exists entry. rewrite Hh, Hb, Hp. repeat split; assumption.
+    unfold hist_of in Eh. destruct (hit_facts _ _ _ _ _ _ _ Eh) as [_ [_ [Hn [Hc _]]]]. split.
+    - intros _ _. exists entry. rewrite Hh, Hb, Hp. repeat split; assumption.
+    - right. rewrite Hb. eapply nth_error_In. exact Hn.
   Qed.
 
   Lemma miss_reports s term' idx' : report_ok s term' idx' false.
@@ -204,7 +206,8 @@ Section Report.
   Definition hands_on (s : est) backup mark term idx d success (c : cmd) : Prop :=
     exists t' i' d' su' s',
       (forall rec, isearch_branch U cfg rec backup mark term idx d success c s = rec t' i' d' su' s')
-      /\ grow (e_line s') = true /\ e_hist s' = e_hist s /\ report_ok s' t' i' su'.
+      /\ grow (e_line s') = true /\ e_hist s' = e_hist s /\ report_ok s' t' i' su'
+      /\ (e_line s' = e_line s \/ In (buf (e_line s')) (e_hist s)).
 
   Lemma step_char s backup mark term idx d success n ch :
     grow (e_line s) = true -> hands_on s backup mark term idx d success (CSelfInsert n ch).
@@ -217,7 +220,7 @@ Section Report.
       + exact (hit_reports _ _ _ _ _ _ _ _ Eh Hsh).
     - exists (term ++ [ch]), idx, d, false, s. split.
       + intros rec. apply typed_char_miss. exact Eh.
-      + split; [exact Hg|]. split; [reflexivity|apply miss_reports].
+      + split; [exact Hg|]. split; [reflexivity|]. split; [apply miss_reports|left; reflexivity].
   Qed.
 
   Lemma step_backspace s backup mark term idx d success n :
@@ -225,7 +228,7 @@ Section Report.
     hands_on s backup mark term idx d success (CKill (MBackwardChar n)).
   Proof.
     intros Hg Hr. exists (removelast term), idx, d, success, s. split; [intros rec; reflexivity|].
-    split; [exact Hg|]. split; [reflexivity|].
+    split; [exact Hg|]. split; [reflexivity|]. split; [|left; reflexivity].
     intros Hs Hne. assert (Ht : term <> []) by (intros ->; apply Hne; reflexivity).
     destruct (Hr Hs Ht) as [e [Hn [Hb Hc]]]. exists e. repeat split; try assumption.
     apply contains_at_removelast. exact Hc.
@@ -242,10 +245,10 @@ Section Report.
         * exact (hit_reports _ _ _ _ _ _ _ _ Eh Hsh).
       + exists term, (idx - 1), Reverse, false, s. split.
         * intros rec. unfold isearch_branch. unfold ebind at 1. cbn [eget]. rewrite El, Eh. reflexivity.
-        * split; [exact Hg|]. split; [reflexivity|apply miss_reports].
+        * split; [exact Hg|]. split; [reflexivity|]. split; [apply miss_reports|left; reflexivity].
     - exists term, idx, Reverse, false, s. split.
       + intros rec. unfold isearch_branch. unfold ebind at 1. cbn [eget]. rewrite El. reflexivity.
-      + split; [exact Hg|]. split; [reflexivity|apply miss_reports].
+      + split; [exact Hg|]. split; [reflexivity|]. split; [apply miss_reports|left; reflexivity].
   Qed.
 
   Lemma step_forward s backup mark term idx d success :
@@ -259,10 +262,10 @@ Section Report.
         * exact (hit_reports _ _ _ _ _ _ _ _ Eh Hsh).
       + exists term, (S idx), Forward, false, s. split.
         * intros rec. unfold isearch_branch. unfold ebind at 1. cbn [eget]. rewrite El, Eh. reflexivity.
-        * split; [exact Hg|]. split; [reflexivity|apply miss_reports].
+        * split; [exact Hg|]. split; [reflexivity|]. split; [apply miss_reports|left; reflexivity].
     - exists term, idx, Forward, false, s. split.
       + intros rec. unfold isearch_branch. unfold ebind at 1. cbn [eget]. rewrite El. reflexivity.
-      + split; [exact Hg|]. split; [reflexivity|apply miss_reports].
+      + split; [exact Hg|]. split; [reflexivity|]. split; [apply miss_reports|left; reflexivity].
   Qed.
 
   Theorem step_keeps_report s backup mark term idx d success c :
@@ -360,7 +363,7 @@ Section Report.
     assert (Hr2 : report_ok s2 term idx success).
     { intros Hs Ht. destruct (Hr Hs Ht) as [e [Hn [Hb Hc]]]. exists e. rewrite H2, H1, L2, L1. repeat split; assumption. }
     destruct (search_key c) eqn:Ek.
-    - destruct (step_keeps_report s2 backup mark term idx d success c Hg2 Hr2 Ek) as [t' [i' [d' [su' [s' [Heq [Hg' [_ Hr']]]]]]]].
+    - destruct (step_keeps_report s2 backup mark term idx d success c Hg2 Hr2 Ek) as [t' [i' [d' [su' [s' [Heq [Hg' [_ [Hr' _]]]]]]]]].
       rewrite !Heq. apply IH; assumption.
     - apply branch_without_rec. exact Ek.
   Qed.
@@ -379,5 +382,61 @@ Section Report.
     symmetry. apply checked_loop_is_loop.
     - unfold changes_begin in E1. revert E1. run_s. intros E1. inversion E1. cbn. exact Hg.
     - intros _ H. exfalso. apply H. reflexivity.
+  Qed.
+  (* ---------- the result of a whole search ---------- *)
+  (* For every sequence of keys read inside the search: the stored history is untouched; an abort leaves exactly the line and
+     cursor from before the search; any other ending leaves either the line from before or a stored history entry. *)
+  Definition shown_ok (orig : lb) (s : est) : Prop :=
+    grow (e_line s) = true /\ (e_line s = orig \/ In (buf (e_line s)) (e_hist s)).
+
+  Theorem search_result fuel : forall backup mark term idx d success orig s res s',
+    grow orig = true -> backup = (buf orig, pos orig) -> pos orig <= blen (buf orig) ->
+    shown_ok orig s -> report_ok s term idx success ->
+    isearch_loop U cfg fuel backup mark term idx d success s = EOk res s' ->
+    e_hist s' = e_hist s
+    /\ (res = None -> buf (e_line s') = buf orig /\ pos (e_line s') = pos orig)
+    /\ (forall c, res = Some c -> e_line s' = orig \/ In (buf (e_line s')) (e_hist s)).
+  Proof.
+    induction fuel as [|f IH]; intros backup mark term idx d success orig s res s' Hgo Hbk Hpo [Hg Hsh] Hr E; [discriminate E|].
+    cbn [isearch_loop] in E.
+    apply ebind_inv in E. destruct E as [u1 [s1 [E1 E]]].
+    destruct (kl_refresh_prompt_and_line _ _ _ _ E1) as [L1 H1].
+    apply ebind_inv in E. destruct E as [c [s2 [E2 E]]].
+    destruct (kl_next_cmd _ _ _ _ _ E2) as [L2 H2].
+    assert (Hg2 : grow (e_line s2) = true) by (rewrite L2, L1; exact Hg).
+    assert (Hh2 : e_hist s2 = e_hist s) by (rewrite H2, H1; reflexivity).
+    assert (Hr2 : report_ok s2 term idx success).
+    { intros Hs Ht. destruct (Hr Hs Ht) as [e [Hn [Hb Hc]]]. exists e. rewrite Hh2, L2, L1. repeat split; assumption. }
+    assert (Hsh2 : e_line s2 = orig \/ In (buf (e_line s2)) (e_hist s)) by (rewrite L2, L1; exact Hsh).
+    destruct (search_key c) eqn:Ek.
+    - destruct (step_keeps_report s2 backup mark term idx d success c Hg2 Hr2 Ek)
+        as [t' [i' [d' [su' [s3 [Heq [Hg3 [Hh3 [Hr3 Hl3]]]]]]]]].
+      rewrite Heq in E.
+      assert (Hsh3 : shown_ok orig s3).
+      { split; [exact Hg3|]. destruct Hl3 as [Hl3|Hl3].
+        - rewrite Hl3, Hh3, Hh2. exact Hsh2.
+        - right. rewrite Hh3. exact Hl3. }
+      destruct (IH backup mark t' i' d' su' orig s3 res s' Hgo Hbk Hpo Hsh3 Hr3 E) as [A [B C]].
+      split; [rewrite A, Hh3, Hh2; reflexivity|]. split; [exact B|].
+      intros c0 Hc0. specialize (C c0 Hc0). rewrite Hh3, Hh2 in C. exact C.
+    - destruct c; try discriminate Ek;
+        try (match type of E with isearch_branch _ _ _ _ _ _ _ _ _ ?cc _ = _ =>
+               destruct (other_command_exits U cfg (fun t i d' su => isearch_loop U cfg f backup mark t i d' su)
+                           s2 backup mark term idx d success cc eq_refl) as [s4 [E4 [L4 H4]]] end;
+             rewrite E in E4; inversion E4; subst res s4;
+             split; [rewrite H4; exact Hh2|]; split; [discriminate|]; intros c0 _; rewrite L4; exact Hsh2).
+      + (* abort *)
+        assert (Hp' : snd backup <= blen (fst backup)) by (rewrite Hbk; exact Hpo).
+        destruct (abort_restores U cfg (fun t i d' su => isearch_loop U cfg f backup mark t i d' su)
+                    s2 backup mark term idx d success Hg2 Hp') as [s4 [E4 [B [P H4]]]].
+        rewrite E in E4. inversion E4; subst res s4. split; [rewrite H4; exact Hh2|].
+        split; [intros _; rewrite B, P, Hbk; split; reflexivity|discriminate].
+      + (* a kill that is not Backspace *)
+        destruct m; try discriminate Ek;
+          match type of E with isearch_branch _ _ _ _ _ _ _ _ _ ?cc _ = _ =>
+            destruct (other_command_exits U cfg (fun t i d' su => isearch_loop U cfg f backup mark t i d' su)
+                        s2 backup mark term idx d success cc eq_refl) as [s4 [E4 [L4 H4]]] end;
+          rewrite E in E4; inversion E4; subst res s4;
+          (split; [rewrite H4; exact Hh2|]); (split; [discriminate|]); intros c0 _; rewrite L4; exact Hsh2.
   Qed.
 End Report.
